@@ -2,6 +2,7 @@ import CoapVerif.Lemmas.Observe
 import CoapVerif.Lemmas.ObserveInv
 import CoapVerif.Lemmas.ObserveRef
 import CoapVerif.Lemmas.ObserveAbsent
+import CoapVerif.Lemmas.ObserveWake
 /-
 C11 — Observe: registered observers get fresh, ordered notifications until cancelled.
 Property theorems about M (CoapVerif/Model/Observe.lean), which T2 ties to the compiled libcoap on every run.
@@ -583,6 +584,105 @@ example : ∀ out ∈ (run (run runStart [.reg 0 0 1 0 true 1, .chg 0, .adv 0]).
     (by decide)
 example : ∃ out ∈ (run (run runStart [.reg 0 0 1 0 true 1, .chg 0, .adv 0]).1
     [.can 0 0 1 0 true 2, .reg 0 0 1 0 true 3, .chg 0, .adv 0]).2, NoteTo out 0 0 1 := by decide
+
+
+/-! ### GLOBAL: the last state is always eventually notified
+Three run-level statements: (a) no lost wake-up — an entry that has not been told the resource's current state (resource dirty
+or entry dirty) keeps `observe_pending` and the resource's dirty/partiallydirty flag set, in EVERY reachable state, so every
+later I/O step walks it; (b) an entry that is NOT stale has been sent the resource's current state (by a notification or by the
+2.05 response to its registration); (c) under the explicit fairness hypothesis — when the walk reaches the entry it is not
+back-pressured, i.e. its session has fewer than NSTART Confirmables in flight (they were acknowledged or given up) or the
+notification may go Non-confirmable — the I/O step writes the notification carrying the then-current (latest) state. -/
+
+/-- (a) no lost wake-up, for ALL event sequences -/
+theorem stale_entry_keeps_wakeup (st : State) (evs : List Event) (hid : IdsNodup st) (h : Wake st) :
+    ∀ y ∈ (run st evs).1.res, y.alive = true → ∀ o ∈ y.subs, (y.dirty = true ∨ o.dirty = true) →
+      (run st evs).1.pending = true ∧ (y.dirty = true ∨ y.pdirty = true) := by
+  obtain ⟨hw, hpd⟩ := run_wake st evs hid h
+  intro y hy hal o ho hst
+  refine ⟨hw ⟨y, hy, ?_⟩, ?_⟩
+  · rcases hst with hst | hst
+    · exact Or.inl hst
+    · exact Or.inr ⟨hal, o, ho, hst⟩
+  · rcases hst with hst | hst
+    · exact Or.inl hst
+    · exact Or.inr (hpd y hy o ho hst)
+
+/-- (b) for ALL event sequences: an entry that is not stale holds the latest state — some datagram of the run told it the
+    resource's current Observe value and version -/
+theorem clean_entry_holds_latest (st : State) (evs : List Event) (hid : IdsNodup st) (h0 : ∀ y ∈ st.res, LiveInv y []) :
+    ∀ y ∈ (run st evs).1.res, y.alive = true → y.dirty = false → ∀ o ∈ y.subs, o.dirty = false →
+      ∃ a ∈ (run st evs).2, a.res = y.id ∧ Told a o.sess o.token y.observe y.ver := by
+  intro y hy hal hd o ho hod
+  obtain ⟨a, ha, hta⟩ := (run_liveInv st evs hid h0 y hy).told hal hd o ho hod
+  obtain ⟨ha1, ha2⟩ := List.mem_filter.mp ha
+  refine ⟨a, ha1, ?_, hta⟩
+  simp [fromRes] at ha2
+  exact ha2.2
+
+/-- (c) latest_eventually_notified at RUN level under the explicit fairness hypothesis `hfair`: after any run, if the I/O loop
+    runs (`adv ms`) and entry `o` of the alive, healthy resource `y` is stale and not back-pressured at its turn, the run's
+    output gains the notification to (o.sess, o.token) carrying y's CURRENT Observe value and version. -/
+theorem latest_eventually_notified_run (st0 : State) (evs : List Event) (ms : Nat) (hid : IdsNodup st0) (hw : Wake st0)
+    (pre post : List Res) (y : Res) (spre spost : List Sub) (o : Sub)
+    (hres : (run st0 evs).1.res = pre ++ y :: post) (hsubs : y.subs = spre ++ o :: spost)
+    (hal : y.alive = true) (herr : y.err = false) (hst : y.dirty = true ∨ o.dirty = true)
+    (hfair : backPressured (turnState { (run st0 evs).1 with now := (run st0 evs).1.now + ms } pre y spre) y o = false) :
+    ∃ out ∈ (run st0 (evs ++ [.adv ms])).2, out.tag = .note ∧ out.c = o.sess ∧ out.token = o.token ∧ out.res = y.id ∧
+      out.code = 69 ∧ out.obs = some y.observe ∧ out.ver = y.ver := by
+  have hy : y ∈ (run st0 evs).1.res := by rw [hres]; simp
+  have ho : o ∈ y.subs := by rw [hsubs]; simp
+  obtain ⟨hp, hwalk⟩ := stale_entry_keeps_wakeup st0 evs hid hw y hy hal o ho hst
+  obtain ⟨out, o', hout, _, h1, h2, h3, h4, h5, _⟩ :=
+    notification_per_observer y o (turnState { (run st0 evs).1 with now := (run st0 evs).1.now + ms } pre y spre) hst hfair herr
+  have hmem := io_outs_of_turn { (run st0 evs).1 with now := (run st0 evs).1.now + ms } pre post y spre spost o hres hsubs hp hal hwalk
+    out (by rw [hout]; simp)
+  refine ⟨out, ?_, h1, h2, h3, ?_, h4, h5, ?_⟩
+  · rw [run_append]
+    apply List.mem_append_right
+    simp only [run_cons, run_nil, List.append_nil]
+    exact hmem
+  · have := (notifyOne_visit false y o (turnState { (run st0 evs).1 with now := (run st0 evs).1.now + ms } pre y spre)).out_fields out
+      (by rw [hout]; simp)
+    exact this.2.2.2.1
+  · have := (notifyOne_visit false y o (turnState { (run st0 evs).1 with now := (run st0 evs).1.now + ms } pre y spre)).out_fields out
+      (by rw [hout]; simp)
+    exact this.2.2.2.2
+
+/-- the fairness hypothesis is met whenever the session has fewer than NSTART Confirmables in flight at that moment … -/
+theorem fair_when_acknowledged (st : State) (y : Res) (o : Sub) (h : (getSess st o.sess).conActive < obsNstart) :
+    backPressured st y o = false := by
+  unfold backPressured
+  simp [Nat.not_le.mpr h]
+
+/-- … and always for an entry whose next notification may go Non-confirmable -/
+theorem fair_when_non (st : State) (y : Res) (o : Sub) (h1 : y.fCon = false) (h2 : o.nonCnt < obsMaxNon) :
+    backPressured st y o = false := by
+  unfold backPressured
+  simp [h1, Nat.not_le.mpr h2]
+
+/-- the wake-up invariant and `LiveInv` hold initially -/
+theorem wake_holds_initially (res : List Res) (stTicks : Nat) (h : ∀ y ∈ res, y.subs = [] ∧ y.dirty = false) :
+    Wake (init res stTicks) ∧ ∀ y ∈ (init res stTicks).res, LiveInv y [] :=
+  ⟨wake_init res stTicks h, liveInv_init res (fun y hy => (h y hy).1)⟩
+
+/-- witness: NOTIFY_CON resource 1, second change while the first Confirmable is in flight → the entry is deferred (stale, flags
+    set); after the ACK the I/O step tells it the latest value -/
+def lateEvents : List Event := [.reg 0 1 2 0 true 1, .chg 1, .adv 0, .chg 1, .adv 0]
+example : ∀ y ∈ [mkRes 0 false false 16777214, mkRes 1 true false 7], y.subs = [] ∧ y.dirty = false := by decide
+example : ((run runStart lateEvents).1.res.map fun y => (y.dirty, y.pdirty, y.subs.map (·.dirty))) = [(false, false, []), (false, true, [true])] ∧
+    (run runStart lateEvents).1.pending = true := by decide
+/-- … and an instance of (c): a burst of two changes, then the I/O step -/
+def lateSt : State := (run runStart [.reg 0 0 1 0 true 1, .chg 0, .chg 0]).1
+def lateY : Res := lateSt.res.getD 0 (mkRes 9 false false 0)
+def lateO : Sub := lateY.subs.getD 0 { sess := 9, token := 9, key := 9, nonCnt := 0, failCnt := 0, dirty := false, mid := 0, lastVer := none }
+example : lateSt.res = [] ++ lateY :: [lateSt.res.getD 1 (mkRes 9 false false 0)] ∧ lateY.subs = [] ++ lateO :: [] ∧
+    lateY.alive = true ∧ lateY.err = false ∧ lateY.dirty = true := by decide
+example : backPressured (turnState { lateSt with now := lateSt.now + 0 } [] lateY []) lateY lateO = false := by decide
+example : ((run runStart ([.reg 0 0 1 0 true 1, .chg 0, .chg 0] ++ [.adv 0])).2.filter fun o => isNotif o).map (fun o => (o.obs, o.ver)) =
+    [(some 0, 2)] := by decide
+example : ((run runStart (lateEvents ++ [.ack 0 1000] ++ [.adv 0])).2.filter fun o => isNotif o).map (fun o => (o.obs, o.ver)) =
+    [(some 8, 1), (some 9, 2)] := by decide
 
 
 end Coap.C11
